@@ -60,6 +60,9 @@ def h_event(my_prio: int, was_on: bool,
     """
     vkopf.begin_path()
     a_present, b_present = vkopf.pin('a_present', a_present), vkopf.pin('b_present', b_present)
+    a_has_life, a_has_seen = vkopf.pin('a_has_life', a_has_life), vkopf.pin('a_has_seen', a_has_seen)
+    b_has_life, b_has_seen = vkopf.pin('b_has_life', b_has_life), vkopf.pin('b_has_seen', b_has_seen)
+    own_present = vkopf.pin('own_present', own_present)
     loop = SymLoop()
     settings = configuration.OperatorSettings()
     settings.peering.name = 'default'
@@ -145,7 +148,7 @@ def h_event(my_prio: int, was_on: bool,
 
 def h_keepalive(lifetime: int, j0: int, j1: int, j2: int, cancel_after: int) -> bool:
     """
-    pre: lifetime >= 2 and 5 <= j0 <= 10 and 5 <= j1 <= 10 and 5 <= j2 <= 10 and cancel_after >= 0
+    pre: lifetime >= 2 and 5 <= j0 <= 10 and 5 <= j1 <= 10 and 5 <= j2 <= 10 and 0 <= cancel_after <= 1
     post: _ == True
     """
     vkopf.begin_path()
@@ -157,8 +160,12 @@ def h_keepalive(lifetime: int, j0: int, j1: int, j2: int, cancel_after: int) -> 
     touches = []
     jit = [j0, j1, j2]
 
+    enough = {}
+
     async def fake_patch_obj(*, settings, resource, namespace, name, patch, logger, silent=False):
         touches.append((loop.time(), copy.copy(dict(patch)['status']['me'])))
+        if len(touches) >= 3 and 'ev' in enough:
+            enough['ev'].set()
         return {}, None
 
     def fake_randint(a, b):
@@ -170,8 +177,11 @@ def h_keepalive(lifetime: int, j0: int, j1: int, j2: int, cancel_after: int) -> 
         peering.random = type('R', (), {'randint': staticmethod(fake_randint)})
         try:
             with shimdt.installed(peering):
+                enough['ev'] = asyncio.Event()
                 task = asyncio.create_task(peering.keepalive(namespace=None, resource=RESOURCE, identity=ME, settings=settings))
-                await asyncio.sleep(3 * lifetime + cancel_after)
+                await enough['ev'].wait()               # three renewals observed (no polling against symbolic durations)
+                if cancel_after > 0:
+                    await asyncio.sleep(cancel_after)
                 task.cancel()
                 await asyncio.gather(task, return_exceptions=True)
         finally:
@@ -344,7 +354,13 @@ def h_two(prio0: int, prio1: int, start1: int, exit0_at: int, kill0: bool, t0: b
 
 
 def obligations():
-    obs = split(Ob('h_event', {}, timeout=2400, twins=['paused', 'cleaned']), a_present=[False, True], b_present=[False, True])
+    B = [False, True]
+    obs = split(Ob('h_event', {}, timeout=900, twins=['paused', 'cleaned']), a_present=[True], b_present=[False], a_has_life=B, a_has_seen=B, own_present=B)
+    obs += split(Ob('h_event', {}, timeout=900), a_present=[True], b_present=[True], a_has_life=[True], a_has_seen=[True],
+                 b_has_life=[True], b_has_seen=B, own_present=[False])
+    obs += split(Ob('h_event', {}, timeout=900), a_present=[False], b_present=[False], own_present=B)
+    obs += split(Ob('h_event', {}, timeout=2400, tiers=('thorough',)), a_present=[True], b_present=[True], a_has_life=B, a_has_seen=B,
+                 b_has_life=B, b_has_seen=B, own_present=B)
     obs.append(Ob('h_keepalive', {}, timeout=1500, twins=['withdrawn']))
     obs += split(Ob('h_two', {'lifetime': 12}, timeout=3400, path_timeout=300, tiers=('thorough',), twins=['killed', 'graceful']), kill0=[False, True])
     return obs
